@@ -88,6 +88,11 @@ func (r *Report) Add(o *OblResult) { r.Obls = append(r.Obls, o) }
 // Violate records a violation.
 func (r *Report) Violate(v *Violation) {
 	v.Property = r.Property
+	for _, x := range r.Violations {
+		if x.Obligation == v.Obligation && x.Key == v.Key && x.Pos == v.Pos {
+			return
+		}
+	}
 	r.Violations = append(r.Violations, v)
 }
 
@@ -138,8 +143,8 @@ func (r *Report) Finish() int {
 	seenKnown := map[string]bool{}
 	for _, v := range r.Violations {
 		if k := isKnown(v); k != nil {
-			if !seenKnown[k.ID+"|"+k.Obligation] {
-				seenKnown[k.ID+"|"+k.Obligation] = true
+			if !seenKnown[k.ID+"|"+k.Obligation+"|"+k.Key] {
+				seenKnown[k.ID+"|"+k.Obligation+"|"+k.Key] = true
 				fmt.Printf("KNOWN-FINDING: property=%s %s [%s] %s (%s)\n", r.Property, k.ID, v.Obligation, k.What, v.Pos)
 				knownHit = append(knownHit, map[string]string{"id": k.ID, "obligation": v.Obligation, "key": v.Key, "what": k.What, "pos": v.Pos})
 			}
